@@ -288,10 +288,17 @@ def step (s : S) : Rec → S
       | some pi => endProc s pi time
       | none => s
     else
-      let (s, pi) := ensureProc s pid
-      match curThread s pi tid with
-      | some i => endThread s i time
+      -- an EXIT record announces nothing: the EXIT of a thread whose process has no live incarnation (its main
+      -- thread exited first, as the kernel emits for `exit_group` with a zombie leader) creates no entry.
+      -- (samply's `handle_exit` does create one through `get_by_pid`: candidate finding
+      -- C17-phantom-process-on-thread-exit, `stepLegacy` below.)
+      match curProc s pid with
       | none => s
+      | some _ =>
+        let (s, pi) := ensureProc s pid
+        match curThread s pi tid with
+        | some i => endThread s i time
+        | none => s
   | .comm pid tid name isExec t =>
     let time := conv s (if t = 0 then s.cur else t)
     if isExec then
@@ -352,51 +359,56 @@ def rows (s : S) : List Row :=
              name := if t.isMain then pname else t.name.getD ("Thread <" ++ tidS ++ ">"),
              processName := pname, start := t.start, end_ := t.end_, pstart := p.start, pend := p.end_ }
 
-/-- The record grammar under which C17 is stated (checked along the eager run): a FORK precedes every
-other record of the new thread (so it never meets a live incarnation), a main thread exits last, EXEC
-only on main threads, a process fork creates the main thread, and no record mentions a (pid, tid) after
-its EXIT unless a FORK re-creates it first. -/
+/-- The part of the kernel's record grammar under which C17 is stated and judged, checked record by record
+along the eager run (the executable form of `LifeL.forkOk`, which is all the refinement proof needs): a FORK
+never names a child that is currently bound — a new process's pid has no live incarnation, a new thread's tid
+is not a live thread of that process, is not the process's main thread and is not the forking thread itself —
+and EXEC happens on main threads only. Everything else the property text lists is *inside* the statement: ids
+reused after their EXIT with or without a FORK, a main-thread EXIT that precedes the EXIT of a sibling, entries
+first seen through a sample / COMM / MMAP2, records that mention an exited id (they create a fresh on-demand
+incarnation). -/
+def stepOk (s : S) : Rec → Bool
+  | .fork pid tid ppid ptid _ =>
+    if pid ≠ ppid then (curProc s pid).isNone
+    else match curProc s ppid with
+      | some pi => (curThread s pi tid).isNone && tid != pid && tid != ptid
+      | none => tid != pid && tid != ptid
+  | .comm pid tid _ isExec _ => !isExec || pid == tid
+  | _ => true
+
+/-- the EXIT of a non-main thread of a pid that has no live process incarnation (the excluded point of
+`C17_refines`: samply creates a phantom process entry there) -/
+def orphanExit (s : S) : Rec → Bool
+  | .exit pid tid _ => pid != tid && (curProc s pid).isNone
+  | _ => false
+
 structure G where
   s : S
-  /-- (pid, tid) pairs that have exited and not been re-forked -/
-  dead : List (Nat × Nat) := []
   ok : Bool := true
-
-def mentions : Rec → List (Nat × Nat)
-  | .sample pid tid _ _ _ _ _ => if tid = 0 then [] else [(pid, tid)]
-  | .fork _ _ ppid ptid _ => [(ppid, ptid)]
-  | .exit pid tid _ => [(pid, tid)]
-  | .comm pid tid _ _ _ => [(pid, tid)]
-  | .mmap2 pid tid _ _ _ _ _ _ => [(pid, tid)]
-  | .switchIn pid tid _ => if tid = 0 then [] else [(pid, tid)]
-  | .switchOut pid tid _ => if tid = 0 then [] else [(pid, tid)]
-  | .sched pid tid _ _ _ _ => [(pid, tid)]
+  /-- an orphan thread EXIT has been seen -/
+  orphan : Bool := false
 
 def gStep (g : G) (r : Rec) : G :=
-  let s := g.s
-  let deadHit := (mentions r).any (fun m => g.dead.contains m || g.dead.contains (m.1, m.1))
-  let ok1 := match r with
-    | .fork pid tid ppid ptid _ =>
-      if pid ≠ ppid then tid == pid && (curProc s pid).isNone
-      else match curProc s ppid with
-        | some pi => (curThread s pi tid).isNone && tid != pid && tid != ptid
-        | none => tid != pid && tid != ptid
-    | .exit pid tid _ =>
-      if pid = tid then
-        match curProc s pid with
-        | some pi => !(s.ts.any (fun t => t.alive && t.pinc == pi && !t.isMain))
-        | none => true
-      else true
-    | .comm pid tid _ isExec _ => !isExec || pid == tid
-    | _ => true
-  let dead := match r with
-    | .fork pid tid _ _ _ => g.dead.filter (fun d => !(d == (pid, tid)))
-    | .exit pid tid _ => (pid, tid) :: g.dead
-    | _ => g.dead
-  { s := step s r, dead, ok := g.ok && ok1 && !deadHit }
+  { s := step g.s r, ok := g.ok && stepOk g.s r, orphan := g.orphan || orphanExit g.s r }
 
 def grammarOk (ref : Nat) (rs : List Rec) : Bool :=
   (rs.foldl gStep { s := { ref, cur := ref } }).ok
+
+/-- no EXIT of a non-main thread arrives while its pid has no live process incarnation -/
+def orphanFree (ref : Nat) (rs : List Rec) : Bool :=
+  !(rs.foldl gStep { s := { ref, cur := ref } }).orphan
+
+/-- what samply does today (candidate finding C17-phantom-process-on-thread-exit): an orphan thread EXIT first
+creates a process entry for the pid on demand (`<pid>`, start 0, never ended). Only used to *label* a judge
+failure and in the `decide`d counterexample `C17_phantom_counterexample`. -/
+def stepLegacy (s : S) (r : Rec) : S :=
+  if orphanExit s r then
+    match r with
+    | .exit pid _ _ => step (ensureProc s pid).1 r
+    | _ => step s r
+  else step s r
+
+def runLegacy (ref : Nat) (rs : List Rec) : S := rs.foldl stepLegacy { ref, cur := ref }
 
 /-- child pids of FORK records that name an already-live pid (a missed EXIT, or a malformed stream) -/
 def forkOntoLive (ref : Nat) (rs : List Rec) : List Nat :=
